@@ -639,6 +639,29 @@ def rule_guarded_subscripts(em, rep, rid, fields=('_predicates_store', 'eval_con
                         if isinstance(s, ast.Call) and isinstance(s.func, ast.Attribute) and s.func.attr == 'setdefault' and \
                                 norm(s.func.value) == norm(n.value) and s.args and norm(s.args[0]) == norm(n.slice) and s.lineno <= n.lineno:
                             ok = 'setdefault of the same key before'
+                if ok is None:
+                    # statements that run before the load on every path: a store of the key, or "if key not in d: d[key] = .."
+                    def stores(st):
+                        return isinstance(st, ast.Assign) and any(isinstance(t, ast.Subscript) and norm(t.value) == norm(n.value) and
+                                                                  norm(t.slice) == norm(n.slice) for t in st.targets)
+                    child = n
+                    for p in parents(n):
+                        if isinstance(p, (ast.FunctionDef, ast.Lambda)) and child not in getattr(p, 'body', []):
+                            break
+                        for fld in ('body', 'orelse', 'finalbody'):
+                            body = getattr(p, fld, None)
+                            if isinstance(body, list) and any(child is b for b in body):
+                                for st in body[:[i for i, b in enumerate(body) if b is child][0]]:
+                                    if stores(st):
+                                        ok = 'the key is stored just before'
+                                    if isinstance(st, ast.If) and not st.orelse and isinstance(st.test, ast.Compare) and \
+                                            len(st.test.ops) == 1 and isinstance(st.test.ops[0], ast.NotIn) and \
+                                            norm(st.test.left) == norm(n.slice) and norm(st.test.comparators[0]) == norm(n.value) and \
+                                            any(stores(x) for x in st.body):
+                                        ok = 'the key is added when absent just before'
+                        if isinstance(p, ast.FunctionDef):
+                            break
+                        child = p
                 if ok:
                     rep.ok(rid, key, ok, f.loc(n))
                 else:
